@@ -34,11 +34,6 @@ pub fn is_leap_astro(a: i64) -> bool {
 }
 
 #[inline]
-pub fn is_leap_display(y: i64) -> bool {
-    is_leap_astro(astro_year(y))
-}
-
-#[inline]
 pub fn month_len(a: i64, m: u32) -> u32 {
     match m {
         1 | 3 | 5 | 7 | 8 | 10 | 12 => 31,
